@@ -91,6 +91,8 @@ func runC03(c *core.Ctx) {
 	x.runK5()
 	x.runK6()
 	x.runK7()
+	x.runK15()
+	x.runK16()
 	c.Note("reachable repository functions: %d (load set %d, run set %d incl. dependencies)", len(x.fns), len(x.load), len(x.run))
 }
 
